@@ -126,6 +126,11 @@ def run(eng, rep) -> None:
                 names = {x.id for x in ast.walk(it) if isinstance(x, ast.Name)}
                 if not (names & tainted):
                     continue
+                if isinstance(it, ast.Name):
+                    # a list that a reading comprehension built: it has one element per successful read, so walking it is bounded by the input
+                    bs_ = [v_ for k_, v_, st_ in Defs(f.node).values(it.id) if v_ is not None]
+                    if bs_ and all(isinstance(v_, ast.ListComp) and body_reads_every_path(eng, f, [ast.Expr(value=v_.elt)], cc, read_methods, reach) for v_ in bs_):
+                        continue
                 n_loops += 1
                 ok = body_reads_every_path(eng, f, body, cc, read_methods, reach)
                 rep.check(ok, "R16.2", f.file, f.qual, "loop over %s" % norm(it, 50), "every iteration performs a guarded read: the loop stops within the remaining input",
